@@ -1,0 +1,36 @@
+//go:build verif
+
+package kv
+
+import "time"
+
+// VerifPermuteRoots, when set by a verification harness, chooses the order in
+// which mergeRoots visits the version list (after the production shuffle).
+var VerifPermuteRoots func(endpoint string, roots []string) []string
+
+// VerifWhen, when set by a verification harness, replaces the creation stamp
+// passed to Open.
+var VerifWhen func(endpoint string, when time.Time) time.Time
+
+func verifPermuteRoots(cfg Config, roots []string) []string {
+	if VerifPermuteRoots != nil && cfg.Storage != nil {
+		return VerifPermuteRoots(cfg.Storage.EndpointURL, roots)
+	}
+	return roots
+}
+
+func verifWhen(cfg Config, when time.Time) time.Time {
+	if VerifWhen != nil && cfg.Storage != nil {
+		return VerifWhen(cfg.Storage.EndpointURL, when)
+	}
+	return when
+}
+
+// Exported wrappers of the unexported crypto primitives, for the harness.
+
+func VerifEncrypt(key *[32]byte, message []byte) ([]byte, error) { return encrypt(key, message) }
+func VerifDecrypt(key *[32]byte, c []byte) ([]byte, error)       { return decrypt(key, c) }
+func VerifDeriveKey(master, context []byte) []byte               { return deriveKey(master, context) }
+func VerifLegacySeal(m []byte, n []byte, k *[32]byte) ([]byte, error) {
+	return crypto_secretbox_easy(m, n, k)
+}
